@@ -678,8 +678,16 @@ func solverStage(r *ev.Run, full bool) {
 					e++
 				}
 			}
-			// node relabellings exercise the RCM ordering: identity and reversal
-			for _, rev := range []bool{false, true} {
+			// node relabellings exercise the RCM ordering: identity and reversal; uniform scalings of the system leave
+			// its conditioning unchanged, so the factorisation must solve them just as well
+			for _, variant := range []struct {
+				rev   bool
+				scale float64
+			}{{false, 1}, {true, 1}, {false, 1e-6}, {false, 1e-9}, {true, 1e-12}, {false, 1e6}} {
+				rev, scale := variant.rev, variant.scale
+				if scale != 1 && mask%3 != 0 {
+					continue
+				}
 				idx := func(i int) int {
 					if rev {
 						return n - 1 - i
@@ -690,12 +698,12 @@ func solverStage(r *ev.Run, full bool) {
 				for i := 0; i < n; i++ {
 					for j := 0; j < n; j++ {
 						if a[idx(i)][idx(j)] != 0 {
-							sm.Set(i, j, a[idx(i)][idx(j)])
+							sm.Set(i, j, scale*a[idx(i)][idx(j)])
 						}
 					}
 				}
 				r.Eval(1)
-				c := mcase{Kernel: "SparseCholesky", Matrix: a, Note: fmt.Sprintf("reversed=%v", rev)}
+				c := mcase{Kernel: "SparseCholesky", Matrix: a, Note: fmt.Sprintf("reversed=%v scale=%g", rev, scale)}
 				var ch *numerical.SparseCholesky
 				if p := ev.Try(func() { ch = numerical.NewSparseCholesky(sm) }); p != "" {
 					r.Violation("SparseCholesky/panic", fmt.Sprintf("graph mask %b on %d nodes: %s", mask, n, p), c)
@@ -715,7 +723,7 @@ func solverStage(r *ev.Run, full bool) {
 					y := ch.ApplyVec3(b)
 					yy := sm.ApplyVec3(b)
 					for i := range y {
-						if !(y[i].Dist(yy[i]) <= 1e-9) {
+						if !(y[i].Dist(yy[i]) <= 1e-9*scale*10) {
 							r.Violation("SparseCholesky/Apply", fmt.Sprintf("graph mask %b on %d nodes: L L^T b differs from A b", mask, n), c)
 							break
 						}
@@ -724,7 +732,7 @@ func solverStage(r *ev.Run, full bool) {
 					bv := make(numerical.Vec, n)
 					bv[bi] = 1
 					sol := (&numerical.BiCGSTABSolver{MaxIters: 200, MSETolerance: 1e-20}).SolveLinearSystem(sm.Apply, bv, nil)
-					if res := sm.Apply(sol).Sub(bv).Norm(); res > 1e-8 {
+					if res := sm.Apply(sol).Sub(bv).Norm(); !(res <= 1e-8) {
 						r.Violation("BiCGSTAB", fmt.Sprintf("graph mask %b on %d nodes, rhs e%d: residual %g after the solver stopped", mask, n, bi, res), c)
 					}
 				}
